@@ -13,7 +13,7 @@ use std::sync::Arc;
 
 pub struct C01;
 
-const N_HEAVY: u64 = 10;
+const N_HEAVY: u64 = 11;
 
 fn heavy(kind: u64, rng: &mut Rng) -> (Comp, Vec<ContentSpec>, bool, &'static str) {
     let mk = |bytes: Vec<u8>, hint: Hint, src: SrcKind| ContentSpec {
@@ -115,6 +115,19 @@ fn heavy(kind: u64, rng: &mut Rng) -> (Comp, Vec<ContentSpec>, bool, &'static st
             (0..66_000).map(|i| mk(vec![b'a' + (i % 26) as u8; 1 + i % 2], Hint::No, SrcKind::Cursor)).collect(),
             false,
             "66000 contents in 66000 clusters",
+        ),
+        // one compressed content larger than 128 MiB (2^27: the largest match window a zstd
+        // decoder accepts by default; such a content gets a cluster of its own, far above the
+        // 4 MiB a compressed cluster normally holds), between two small ones
+        10 => (
+            Comp::Zstd(1),
+            vec![
+                mk(gen::gen_bytes(rng, 0, 300, Flavor::Text), Hint::Yes, SrcKind::Cursor),
+                mk(gen::gen_bytes(rng, 1, (1 << 27) + 4097, Flavor::Text), Hint::Yes, SrcKind::File),
+                mk(gen::gen_bytes(rng, 2, 70, Flavor::Text), Hint::Yes, SrcKind::Cursor),
+            ],
+            false,
+            "one compressed content above 128 MiB",
         ),
         // offset width 2 -> 3 bytes (65535 / 65536) in raw and compressed clusters
         _ => (
@@ -307,7 +320,7 @@ impl TCheck for C01 {
                 hard_fault: false,
                 one_cpu: false,
                 post: None,
-                max_scheds: if work == 9 { Some(1) } else { None },
+                max_scheds: if work == 9 || work == 10 { Some(1) } else { None },
             };
         }
         let comp = *rng.pick(&[
@@ -354,6 +367,33 @@ impl TCheck for C01 {
                 };
                 let at = rng.usize_below(contents.len() + 1);
                 contents.insert(at, d);
+            }
+        }
+        if dedup {
+            // near-duplicates of small contents: the same length and the same bytes but for one
+            // (the last, the first or a middle one), at lengths around the sizes a hash, a key or a
+            // cache line may have (own sub-stream: the works themselves stay as drawn before)
+            let mut nrng = Rng::derive(seed, "c01-near-duplicates", work);
+            for _ in 0..nrng.below(6) {
+                let len = *nrng.pick(&[1usize, 2, 8, 15, 16, 17, 31, 32, 33, 63, 64, 65, 127, 128, 129, 255, 256, 4095, 4096]);
+                let base = gen::gen_bytes(&mut nrng, contents.len(), len, Flavor::Random);
+                let mut near = base.clone();
+                let at = match nrng.below(3) {
+                    0 => len - 1,
+                    1 => 0,
+                    _ => len / 2,
+                };
+                near[at] ^= 1 << nrng.below(8);
+                for bytes in [base.clone(), near, base] {
+                    let c = ContentSpec {
+                        bytes: Arc::new(bytes),
+                        hint: *nrng.pick(&[Hint::Yes, Hint::No, Hint::Detect]),
+                        src: SrcKind::Cursor,
+                        pack: 1,
+                    };
+                    let at = nrng.usize_below(contents.len() + 1);
+                    contents.insert(at, c);
+                }
             }
         }
         if !dedup {
@@ -490,7 +530,7 @@ impl TCheck for C01 {
         }
     }
     fn rule(&self) -> String {
-        "works = seeded insertion sequences (0..80 contents; lengths 0..70000 biased to 0/1/255/256/4095/4096/65535/65536; constant / text / random / mixed-across-the-4KiB-detection-window bytes; hints Yes/No/Detect; sources Cursor, InputFile, InputFile::new_range, perturbing SimReader with short reads and Interrupted; all codecs x several levels; with and without the deduplicating adder incl. inserted duplicates; content-pack file or BasicCreator one-file packaging; shipped or shrunk cluster limits; 1..15 workers) plus 7 boundary workloads with the shipped limits (4095-blob split raw and compressed, dedup around the 4 MiB hashing switch, 4 MiB compressed cluster limit, 16 MiB+1 raw cluster, 65535/65536 widths); every work runs under several seeded schedules of caller, workers, writer and decoder jobs and is read back in the same execution (count, every address byte for byte, past-the-count addresses, check()); non-trivial = a choice point where the running task was not continued; distinct = distinct (work, decision trace)".into()
+        "works = seeded insertion sequences (0..80 contents; lengths 0..70000 biased to 0/1/255/256/4095/4096/65535/65536; constant / text / random / mixed-across-the-4KiB-detection-window bytes; hints Yes/No/Detect; sources Cursor, InputFile, InputFile::new_range, perturbing SimReader with short reads and Interrupted; all codecs x several levels; with and without the deduplicating adder incl. inserted duplicates; content-pack file or BasicCreator one-file packaging; shipped or shrunk cluster limits; 1..15 workers) plus 11 boundary workloads (one compressed content above 128 MiB, 4095-blob split raw and compressed, dedup around the 4 MiB hashing switch, 4 MiB compressed cluster limit, 16 MiB+1 raw cluster, 65535/65536 widths); every work runs under several seeded schedules of caller, workers, writer and decoder jobs and is read back in the same execution (count, every address byte for byte, past-the-count addresses, check()); non-trivial = a choice point where the running task was not continued; distinct = distinct (work, decision trace)".into()
     }
     fn real_vs_stub(&self) -> Value {
         crate::c08::C08.real_vs_stub()
